@@ -20,7 +20,9 @@ from .. import guards
 from ..report import AnalysisError
 
 _REF = None
+_REF_EV = None
 _CUR = {}
+_CUR_EV = {}
 
 
 def reference():
@@ -34,10 +36,7 @@ def reference():
 
 
 def current(c):
-    k = id(c.index)
-    if k not in _CUR:
-        _CUR[k] = guards.extract(c.index)
-    return _CUR[k]
+    return _cached(c, 'refusals', guards.extract)
 
 
 def _show(row):
@@ -73,6 +72,9 @@ def check(chk, c, rule, funcs, classes=None, what='refusal'):
             if r is None:
                 chk.ok(rule, construct, 'too many elementary tests to tabulate; not compared', loc, key=key)
                 continue
+            if cu is None and not r['rows']:
+                chk.ok(rule, construct, 'was unreachable in the reviewed tree (dead refusal); nothing to keep', loc, key=key)
+                continue
             if cu is None:
                 if cls not in cur.get(fq, {}):
                     chk.fail(rule, construct, 'the function no longer %s at all: every input it used to refuse this way is now accepted '
@@ -102,3 +104,145 @@ def check(chk, c, rule, funcs, classes=None, what='refusal'):
                 chk.info('%s: %s/%s refuses %d more combination(s), all under a STRICT test (allowed)' % (rule, fq, cls, len(gained)))
             chk.ok(rule, construct, '%d elementary test(s), %d refusing combination(s)' % (len(cu['atoms']), len(cu['rows'])), loc, key=key)
     return n
+
+
+def reference_events():
+    global _REF_EV
+    if _REF_EV is None:
+        p = os.path.join(os.path.dirname(os.path.dirname(os.path.dirname(os.path.abspath(__file__)))), 'reference', 'decisions.json')
+        if not os.path.exists(p):
+            raise AnalysisError('reference/decisions.json is missing')
+        _REF_EV = json.load(open(p))['events']
+    return _REF_EV
+
+
+_MEM = {}
+
+
+def _cached(c, tag, fn):
+    """result of an extractor on the tree under analysis; cached in memory and on disk by the digest of the analysed sources
+    and of the extractor's own code"""
+    import hashlib
+    k = (id(c.index), tag)
+    if k in _MEM:
+        return _MEM[k]
+    h = hashlib.sha256()
+    for name in sorted(c.index.modules):
+        m = c.index.modules[name]
+        if name.startswith('v2_') and not name.endswith('base_datatypes'):
+            continue
+        h.update(name.encode())
+        h.update(m.source.encode('utf-8', 'replace'))
+    here = os.path.dirname(os.path.dirname(os.path.abspath(__file__)))
+    for f in ('guards.py', 'canon.py', 'cfg.py', 'src.py', os.path.join('rules', 'c12.py'), os.path.join('rules', 'pat.py')):
+        h.update(open(os.path.join(here, f), 'rb').read())
+    cache_dir = os.path.join(os.path.dirname(here), '.cache')
+    path = os.path.join(cache_dir, '%s-%s.json' % (tag, h.hexdigest()[:24]))
+    res = None
+    if os.path.exists(path):
+        try:
+            res = json.load(open(path))
+        except Exception:
+            res = None
+    if res is None:
+        res = fn(c.index)
+        try:
+            os.makedirs(cache_dir, exist_ok=True)
+            tmp = path + '.%d.tmp' % os.getpid()
+            json.dump(res, open(tmp, 'w'))
+            os.replace(tmp, path)
+        except Exception:
+            pass
+    _MEM[k] = res
+    return res
+
+
+def current_events(c):
+    return _cached(c, 'decisions', guards.extract_events)
+
+
+def check_decisions(chk, c, rule, select, what='decision structure'):
+    """select(fq) -> bool.  For every selected function of the reference: the set of effect statements (by signature) and,
+    for each, the combinations of the function's elementary tests under which it runs.  Reported: a statement whose
+    predicate changed while the function's statements are otherwise the same, and statements that vanished without any new
+    statement appearing (a deletion).  A function whose statement set changed on both sides was rewritten: not compared."""
+    ref = reference_events()
+    if chk.tier != 'thorough':
+        # the full decision tables are a regression comparison: they also react to simplifications that are equivalent only
+        # because of data invariants (a redundant conjunct, dead code), so they are part of the thorough tier only
+        chk.info('%s: decision tables are compared in the thorough tier (%d functions in the reference)' % (
+            rule, sum(1 for fq in ref if select(fq))))
+        return sum(1 for fq in ref if select(fq))
+    cur = current_events(c)
+    n = 0
+    for fq in sorted(ref):
+        if not select(fq):
+            continue
+        fi = c.index.functions.get(fq)
+        if fi is None:
+            chk.info('%s: %s no longer exists (renamed / moved): not compared' % (rule, fq))
+            continue
+        r, cu = ref[fq], cur.get(fq, {})
+        gone = sorted(s_ for s_ in r if s_ not in cu)
+        new = sorted(s_ for s_ in cu if s_ not in r)
+        n += 1
+        key = '%s|%s' % (rule, fq)
+        if gone and new:
+            chk.info('%s: %s was rewritten (statements gone %s, new %s): not compared' % (rule, fq, gone[:2], new[:2]))
+            chk.ok(rule, '%s: %s' % (fq, what), 'rewritten, not compared', fi.loc, key=key)
+            continue
+        helpers = set(fi.module.functions) | set(getattr(fi, 'nested', {}) or {}) | \
+            (set(fi.outer.nested) if getattr(fi, 'outer', None) is not None else set())
+        if gone and all(g_.split(' ', 1)[-1].rstrip('()') in helpers or g_.split(' ', 1)[-1].rstrip('()').lstrip('_') != g_.split(' ', 1)[-1].rstrip('()')
+                        and g_.startswith(('call _', 'return _')) and '.' not in g_ for g_ in gone):
+            chk.info('%s: %s no longer calls its helper(s) %s (inlined?): not compared' % (rule, fq, gone[:2]))
+            chk.ok(rule, '%s: %s' % (fq, what), 'helper calls removed (inlined), not compared', fi.loc, key=key)
+            continue
+        if gone:
+            chk.fail(rule, '%s: %s' % (fq, what),
+                     'statement(s) of the reviewed function are gone and nothing took their place: %s' % ', '.join('`%s`' % g_ for g_ in gone[:3]),
+                     fi.loc, key=key + '|gone|' + gone[0][:40])
+            continue
+        bad = None
+        for sig in sorted(r):
+            if r[sig] is None or cu.get(sig) is None:
+                continue
+            if not new and r[sig].get('argc') is not None and cu[sig].get('argc') is not None and \
+                    r[sig].get('n') == cu[sig].get('n'):
+                if r[sig]['argc'] != cu[sig].get('argc'):
+                    bad = ('args', sig, r[sig]['argc'], cu[sig].get('argc'))
+                    break
+                if r[sig].get('consts') != cu[sig].get('consts'):
+                    bad = ('consts', sig, r[sig].get('consts'), cu[sig].get('consts'))
+                    break
+            if r[sig].get('n') != cu[sig].get('n') and r[sig]['rows'] == cu[sig]['rows'] and r[sig]['atoms'] == cu[sig]['atoms']:
+                continue
+            lost, gained, note = guards.compare(r[sig], cu[sig])
+            if note:
+                bad = ('note', sig, note)
+                break
+            if lost or gained:
+                bad = ('diff', sig, lost, gained)
+                break
+        if bad is None:
+            chk.ok(rule, '%s: %s' % (fq, what), '%d statement kind(s)' % len(r), fi.loc, key=key)
+        elif bad[0] == 'args':
+            chk.fail(rule, '%s: %s' % (fq, what),
+                     '`%s` passes a different number of arguments than in the reviewed tree (%s -> %s): an argument was dropped or '
+                     'added' % (bad[1], bad[2], bad[3]), fi.loc, key=key + '|args|' + bad[1][:40])
+        elif bad[0] == 'consts':
+            chk.fail(rule, '%s: %s' % (fq, what),
+                     '`%s` uses different positions / integer constants than in the reviewed tree (%s -> %s)' % (bad[1], bad[2], bad[3]),
+                     fi.loc, key=key + '|consts|' + bad[1][:40])
+        elif bad[0] == 'note':
+            chk.info('%s: %s / `%s` not compared (%s)' % (rule, fq, bad[1], bad[2]))
+            chk.ok(rule, '%s: %s' % (fq, what), 'not compared: ' + bad[2][:100], fi.loc, key=key)
+        else:
+            _, sig, lost, gained = bad
+            ex = (lost or gained)[0]
+            chk.fail(rule, '%s: %s' % (fq, what),
+                     '`%s` %s, e.g. when %s' % (sig, 'no longer runs in %d combination(s) of the function\'s tests in which it used to' % len(lost)
+                                                if lost else 'now also runs in %d combination(s) in which it did not' % len(gained), _show(ex)),
+                     fi.loc, key=key + '|' + sig[:40])
+    return n
+
